@@ -6,6 +6,7 @@
     toaststats GetTOASTVerboseInfo tallies (Values in the order returned)
     toastrepeat GetTOASTVerboseInfo 20 times, byte-identical JSON (C11)
     toastties  live rows with duplicate chunk_seq through ReassembleTOAST (stable order among equals)
+    toastunhinted  every header state of a chunk (unhinted, hinted, frozen, deleted, aborted, t_xmin 0) against PostgreSQL's TOAST visibility rule
     lz4go, pglzgo   handler-side batches with an independent compressor (impl vs original only)
     toastmut   corrupted relations / pointers / streams (C10)
 -/
@@ -137,7 +138,7 @@ def mkVal (id : Nat) (content : Content) (cuts : List Nat) : ToastValue := { id,
 def seqBytes (n : Nat) (salt : Nat) : Bytes := (List.range n).map fun i => UInt8.ofNat ((i * 7 + salt) % 251)
 
 /-- every placement permutation of the chunks of a k-chunk value, k = 1..5 (153 layouts), with a foreign value and a
-dead version in between; odd cases are split over two pages -/
+dead version (an aborted insertion) in between; odd cases are split over two pages -/
 def permRels : List Gen.Toast.Rel :=
   (List.range 5).flatMap fun k0 =>
     let k := k0 + 1
@@ -146,7 +147,7 @@ def permRels : List Gen.Toast.Rel :=
     let other := mkVal 78 (.plain (seqBytes 5 9)) [2, 3]
     let rows := chunkRows v
     let orows := chunkRows other
-    let dead : Entry := { row := { id := 77, seq := 0, data := [0xDE, 0xAD] }, infomask := 0x0502, xmax := 900 }
+    let dead : Entry := { row := { id := 77, seq := 0, data := [0xDE, 0xAD] }, infomask := 0x0A02, xmin := 650 }
     let ps := Gen.Toast.perms rows
     ps.zipIdx.map fun (p, i) =>
       let es : List Entry := (p.map fun r => ({ row := r } : Entry))
@@ -440,9 +441,9 @@ def toastrepeat : Family := { name := "toastrepeat", gen := toastrepeatGen, eval
 
 /-! ### toastties: LIVE rows of one value with DUPLICATE chunk_seq (REVIEW C2)
 
-A value whose live rows repeat a sequence number is outside `Layout.Stores` (PostgreSQL's toast index is unique on
-(chunk_id, chunk_seq) among visible rows) — but it is what the tool sees when a deleted chunk version is not yet hinted
-as deleted (0x0102 with xmax ≠ 0): live by the hint-bit rule, so both versions are concatenated.  SPEC is silent (`-`);
+A value whose live rows repeat a sequence number is outside `Layout.Stores` and cannot be produced by PostgreSQL (the
+toast index is unique on (chunk_id, chunk_seq), and a value id is not reused while rows carrying it exist) — a damaged or
+hand-made relation.  SPEC is silent (`-`);
 the family pins MODEL = implementation: ReassembleTOAST sorts with sort.SliceStable since fixes/toast/06, equal sequence
 numbers keep their physical order (the model's stable merge sort).  Before the fix the order among equals was pdqsort's
 and differed from any stable sort from 13 chunks on.  Same arguments and handler as `toastrel`. -/
@@ -499,42 +500,70 @@ def toasttiesGen (seed idx _size : Nat) : Case :=
 
 def toastties : Family := { name := "toastties", gen := toasttiesGen, eval := toastrelEval, fixed := fixedTies.length }
 
-/-! ### toastunhinted: the open finding `C08-unhinted-chunks`
+/-! ### toastunhinted: every header state of a chunk against PostgreSQL's TOAST visibility rule
 
-SPEC = what PostgreSQL returns (it decides visibility from the commit log); the relation is generated fully hinted, its
-expected values taken, and then the hint bits of the first value's chunks are taken back to what they are before anything
-has set them:
-  fresh   every live chunk of the value in state 0x0802 (inserted by a committed transaction, XMIN_COMMITTED not set yet)
-          — the tool does not see the value: `~`
-  stale   an old version of the value's first chunk, deleted by a committed transaction but not hinted so (0x0102,
-          xmax ≠ 0), stored before it — the tool concatenates both versions
-  hinted  the relation as generated (control: no finding tag)
+(The family keeps the name of the finding it was built for, `C08-unhinted-chunks`, repaired by fixes/toast/21: before it
+the tool read TOAST relations with the heap rule — XMIN_COMMITTED hinted and deleter not committed — and returned nil for
+every value whose chunks nobody had hinted yet.)  A plain family now: SPEC = `relCase`'s, i.e. the original bytes of every
+value that has a row the TOAST snapshot sees (`Spec.Toast.toastVisible`).  The relation is generated, then the header of
+every stored tuple is re-stamped: rows the generator made live get a state from `visibleStates`, the others (dead chunk
+versions) one from `invisibleStates`; one more dead version of the first value's first chunk is put in front.
+Deterministic prefix: each boundary relation with ALL its live rows in one state, for every visible state.
 Same arguments and handler as `toastrel`. -/
 
+/-- (infomask, t_xmin, t_xmax) the TOAST snapshot sees: nothing hinted (the state until the first VACUUM), hinted
+committed, frozen (both XMIN bits), xmax set / committed / locked / multixact (a deleted value: the chunks stay visible) -/
+def visibleStates : List (Nat × Nat × Nat) :=
+  [(0x0802, 700, 0), (0x0002, 700, 0), (0x0902, 700, 0), (0x0B02, 700, 0), (0x0302, 2, 0), (0x0102, 700, 900),
+   (0x0502, 700, 900), (0x0402, 700, 900), (0x0C02, 700, 900), (0x2902, 700, 0), (0x1882, 700, 901), (0x0802, 1, 0),
+   (0x0802, 4294967295, 4294967295)]
+
+/-- states it does not see: aborted insertion (XMIN_INVALID without XMIN_COMMITTED, any XMAX bits), t_xmin 0 -/
+def invisibleStates : List (Nat × Nat × Nat) :=
+  [(0x0A02, 700, 0), (0x0202, 700, 0), (0x0602, 700, 900), (0x0E02, 700, 900), (0x0802, 0, 0), (0x0002, 0, 0),
+   (0x0402, 0, 900), (0x0A02, 0, 0)]
+
+def stateTag (st : Nat × Nat × Nat) : String :=
+  s!"state={hexN 4 st.1}" ++ (if st.2.1 == 0 then "/xmin0" else "")
+
+def stamp (e : Entry) (st : Nat × Nat × Nat) : Entry := { e with infomask := st.1, xmin := st.2.1, xmax := st.2.2 }
+
 def toastunhintedGen (seed idx size : Nat) : Case :=
-  let rel := if idx < boundaryRels.length then boundaryRels.getD idx default
-             else (Gen.Toast.genRel (min size 2)).run' (Prng.ofSeed (seed + 311) idx)
+  let nb := boundaryRels.length
+  let nv := visibleStates.length
+  let fixedN := nb * nv
   let mode := idx % 2
-  let base := relCase rel mode
-  match rel.vals.head? with
-  | none => base
-  | some v0 =>
-    let hasLive := !(rel.lay.liveRows.filter fun r => r.id == v0.id).isEmpty
-    let variant := if hasLive then (idx / 2) % 3 else 2
-    let lay' : Layout :=
-      match variant with
-      | 0 => rel.lay.map fun pg => pg.map fun e => if e.live && e.row.id == v0.id then { e with infomask := 0x0802 } else e
-      | 1 =>
-        let old : Entry := { row := { id := v0.id, seq := 0, data := [0xDE, 0xAD] }, infomask := 0x0102, xmin := 600, xmax := 900 }
-        [old] :: rel.lay
-      | _ => rel.lay
+  if idx < fixedN then
+    let rel := boundaryRels.getD (idx / nv) default
+    let st := visibleStates.getD (idx % nv) (0x0802, 700, 0)
+    let lay' : Layout := rel.lay.map fun pg => pg.map fun e => if e.live then stamp e st else e
     let k := relCase { rel with lay := lay' } mode
-    let vt := match variant with | 0 => "class=fresh" | 1 => "class=stale" | _ => "class=hinted"
-    { k with spec := base.spec,
-             tags := [vt, s!"mode={mode}"] ++ (if variant < 2 then ["kf:C08-unhinted-chunks"] else []) ++ ["nt"] }
+    { k with tags := [stateTag st, "kind=uniform"] ++ k.tags }
+  else
+    ((do
+      let rel ← Gen.Toast.genRel (min size 2)
+      let mut pages : Array (List Entry) := #[]
+      for pg in rel.lay do
+        let mut cur : Array Entry := #[]
+        for e in pg do
+          let st ← if e.live then Gen.oneOf visibleStates else Gen.oneOf invisibleStates
+          cur := cur.push (stamp e st)
+        pages := pages.push cur.toList
+      let lay' : Layout ←
+        match rel.vals.head? with
+        | some v0 => do
+          let st ← Gen.oneOf invisibleStates
+          let old : Entry := stamp { row := { id := v0.id, seq := 0, data := [0xDE, 0xAD] } } st
+          pure ([old] :: pages.toList)
+        | none => pure pages.toList
+      let k := relCase { rel with lay := lay' } mode
+      let fresh := lay'.flatten.any fun e => e.live && !e.infomask.testBit 8
+      pure { k with tags := ["state=mixed", (if fresh then "unhinted=1" else "unhinted=0")] ++ k.tags } : Gen Case)).run'
+        (Prng.ofSeed (seed + 311) idx)
 
 def toastunhinted : Family :=
-  { name := "toastunhinted", gen := toastunhintedGen, eval := toastrelEval, fixed := boundaryRels.length }
+  { name := "toastunhinted", gen := toastunhintedGen, eval := toastrelEval,
+    fixed := boundaryRels.length * visibleStates.length }
 
 /-! ### toastmut (C10): nothing in toast.go may panic or allocate out of proportion, whatever the bytes -/
 
